@@ -237,6 +237,12 @@ func (e *CEnv) lookupIdent(name string) (CVal, bool) {
 			switch ob := o.(type) {
 			case *types.Var:
 				if ob.Parent() != ob.Pkg().Scope() {
+					if v.boxed[ob] && e.st == v.entry {
+						// entry state: the parameter's value itself (the box is created in the body)
+						if t, ok := e.st.vars[ob]; ok {
+							return CVal{t, ob.Type()}, true
+						}
+					}
 					if v.boxed[ob] {
 						if ref, ok := e.st.vars[ob]; ok {
 							if _, isArr := ob.Type().Underlying().(*types.Array); isArr {
@@ -917,6 +923,9 @@ func (e *CEnv) bsub(b, lo, hi *Term) *Term {
 // bcat: concatenation as a fresh normalised array with a defining axiom.
 func (e *CEnv) bcat(a, b *Term) *Term {
 	v := e.v
+	if v.inQuant > 0 {
+		v.noBoundVars("byte-string concatenation", a, b)
+	}
 	key := "cat|" + a.String() + "|" + b.String()
 	if w, ok := v.windows[key]; ok {
 		found := false
